@@ -13,13 +13,19 @@ use vrp_core::models::problem::{
     Costs, Job, JobIdDimension, MultiBuilder, Place, Single, TransportCost, TravelTime, Vehicle,
     VehicleDetail, VehicleIdDimension, VehiclePlace,
 };
-use vrp_core::models::solution::Route;
+use vrp_core::models::solution::{Activity, Place as ActPlace, Route};
+use vrp_core::models::common::Schedule;
+use vrp_core::construction::heuristics::InsertionContext;
+use vrp_core::rosomaxa::evolution::TelemetryMode;
+use vrp_core::rosomaxa::prelude::{Environment, HeuristicSearchOperator};
+use vrp_core::solver::search::{LKHSearch, LKHSearchMode};
+use vrp_core::solver::{create_elitism_population, RefinementContext};
 use vrp_core::models::{Problem, ProblemBuilder};
 use vrp_cli::extensions::analyze::{get_dbscan_clusters, get_k_medoids_clusters};
 use vrp_pragmatic::format::problem::{deserialize_matrix, deserialize_problem, PragmaticProblem};
 use vrp_pragmatic::format::{CoordIndexExtraProperty, Location as ApiLocation};
 use std::panic::{catch_unwind, AssertUnwindSafe};
-use std::sync::atomic::{AtomicUsize, Ordering};
+use std::sync::atomic::{AtomicU64, AtomicUsize, Ordering};
 use std::sync::mpsc::channel;
 use std::time::Duration;
 use vh::util::*;
@@ -41,6 +47,65 @@ impl AdjacencySpec for Adj {
     }
     fn neighbours(&self, node: Node) -> &[Node] {
         self.nbr.get(node).unwrap_or(&self.empty).as_slice()
+    }
+}
+
+/// AdjacencySpec over arbitrary f64 costs that counts the calls of `cost`: past the budget it panics (caught by the caller), so a
+/// search that never ends becomes a result value without leaving a spinning thread behind (deterministic, unlike a timeout).
+struct BudgetAdj {
+    cost: Vec<Vec<f64>>,
+    nbr: Vec<Vec<usize>>,
+    empty: Vec<usize>,
+    calls: Arc<AtomicU64>,
+    budget: u64,
+}
+
+const BUDGET_MSG: &str = "c17-cost-call-budget-exceeded";
+
+fn panic_text(e: &Box<dyn std::any::Any + Send>) -> String {
+    e.downcast_ref::<String>().cloned().or_else(|| e.downcast_ref::<&str>().map(|s| s.to_string())).unwrap_or_else(|| "panic".to_string())
+}
+
+impl AdjacencySpec for BudgetAdj {
+    fn cost(&self, edge: &Edge) -> Cost {
+        if self.calls.fetch_add(1, Ordering::SeqCst) + 1 > self.budget {
+            panic!("{}", BUDGET_MSG);
+        }
+        self.cost[edge.0][edge.1]
+    }
+    fn neighbours(&self, node: Node) -> &[Node] {
+        self.nbr.get(node).unwrap_or(&self.empty).as_slice()
+    }
+}
+
+/// TransportCost over an arbitrary f64 distance matrix (durations are zero) that counts distance_approx calls while `armed`
+/// and panics past the budget: a non-terminating LKHSearch becomes a result value
+struct BudgetTransport {
+    size: usize,
+    dist: Vec<f64>,
+    calls: Arc<AtomicU64>,
+    armed: Arc<AtomicUsize>,
+    budget: u64,
+}
+
+impl TransportCost for BudgetTransport {
+    fn duration_approx(&self, _: &Profile, _: Location, _: Location) -> TravelDuration {
+        0.
+    }
+    fn distance_approx(&self, _: &Profile, from: Location, to: Location) -> Distance {
+        if self.armed.load(Ordering::SeqCst) == 1 && self.calls.fetch_add(1, Ordering::SeqCst) + 1 > self.budget {
+            panic!("{}", BUDGET_MSG);
+        }
+        self.dist[from * self.size + to]
+    }
+    fn duration(&self, _: &Route, _: Location, _: Location, _: TravelTime) -> TravelDuration {
+        0.
+    }
+    fn distance(&self, route: &Route, from: Location, to: Location, _: TravelTime) -> Distance {
+        self.dist[from * self.size + to]
+    }
+    fn size(&self) -> usize {
+        self.size
     }
 }
 
@@ -212,8 +277,8 @@ static CLUSTER_TIMEOUTS: AtomicUsize = AtomicUsize::new(0);
 /// of them further clustering cases are skipped because the abandoned threads keep spinning.
 pub fn run_case(case: &Value) -> Value {
     let op = case["op"].as_str().unwrap().to_string();
-    if op == "lkh" {
-        return run_inner(case); // has its own watchdog (shorter limit)
+    if op == "lkh" || op == "lkhf" || op == "lkhsearch" {
+        return run_inner(case); // has its own watchdog (shorter limit / call budget)
     }
     if CLUSTER_TIMEOUTS.load(Ordering::SeqCst) >= 4 {
         return json!({ "skipped": true });
@@ -378,6 +443,147 @@ fn run_inner(case: &Value) -> Value {
                         TIMEOUTS.fetch_add(1, Ordering::SeqCst);
                     }
                     json!({ "timeout": true })
+                }
+            }
+        }
+        "lkhf" => {
+            // arbitrary f64 costs (bit patterns); termination is decided by a budget of AdjacencySpec::cost calls
+            let cost: Vec<Vec<f64>> = case["fcost"].as_array().unwrap().iter().map(f64s_of).collect();
+            let nbr: Vec<Vec<usize>> = case["nbr"].as_array().unwrap().iter().map(usizes_of).collect();
+            let path = usizes_of(&case["path"]);
+            let budget = case.get("budget").and_then(|v| v.as_u64()).unwrap_or(300_000);
+            let calls = Arc::new(AtomicU64::new(0));
+            let adj = BudgetAdj { cost, nbr, empty: vec![], calls: calls.clone(), budget };
+            match catch_unwind(AssertUnwindSafe(move || lkh_optimize(adj, path))) {
+                Ok(paths) => json!({ "paths": paths, "calls": calls.load(Ordering::SeqCst) }),
+                Err(e) => {
+                    if panic_text(&e) == BUDGET_MSG {
+                        json!({ "budget_exceeded": true, "calls": calls.load(Ordering::SeqCst) })
+                    } else {
+                        panic!("{}", panic_text(&e))
+                    }
+                }
+            }
+        }
+        "lkhsearch" => {
+            // the solver's LKH operator (solver/search/lkh_search.rs): a real Problem whose TransportCost returns arbitrary f64
+            // distances (bit patterns), one route per vehicle holding the given jobs in the given order, LKHSearch::search in
+            // Diverse mode (the repaired copy of the re-sequenced routes is returned as it is). The CostMatrix / neighbourhoods /
+            // path <-> tour conversion are those of lkh_search.rs; termination by a budget of distance_approx calls.
+            let size = usize_of(&case["size"]);
+            let dist: Vec<f64> = case["fdist"].as_array().unwrap().iter().flat_map(f64s_of).collect();
+            assert_eq!(dist.len(), size * size);
+            let budget = case.get("budget").and_then(|v| v.as_u64()).unwrap_or(300_000);
+            let calls = Arc::new(AtomicU64::new(0));
+            let armed = Arc::new(AtomicUsize::new(0));
+            let transport: Arc<dyn TransportCost> =
+                Arc::new(BudgetTransport { size, dist, calls: calls.clone(), armed: armed.clone(), budget });
+            let routes = case["routes"].as_array().unwrap();
+            let mut jobs: Vec<Job> = vec![];
+            let mut route_jobs: Vec<Vec<(usize, Arc<Single>)>> = vec![];
+            for r in routes {
+                let mut rj = vec![];
+                for loc in usizes_of(&r["jobs"]) {
+                    let single = Arc::new(single_at(Some(jobs.len()), &json!([loc])));
+                    jobs.push(Job::Single(single.clone()));
+                    rj.push((loc, single));
+                }
+                route_jobs.push(rj);
+            }
+            let vehicles: Vec<Vehicle> = routes
+                .iter()
+                .enumerate()
+                .map(|(i, r)| {
+                    let mut dimens = Dimensions::default();
+                    dimens.set_vehicle_id(format!("v{i}"));
+                    let start = VehiclePlace { location: usize_of(&r["start"]), time: TimeInterval { earliest: Some(0.), latest: None } };
+                    let end = if r["end"].is_null() {
+                        None
+                    } else {
+                        Some(VehiclePlace { location: usize_of(&r["end"]), time: TimeInterval { earliest: None, latest: None } })
+                    };
+                    Vehicle {
+                        profile: Profile::new(0, None),
+                        costs: Costs { fixed: 0., per_distance: 1., per_driving_time: 0., per_waiting_time: 0., per_service_time: 0. },
+                        dimens,
+                        details: vec![VehicleDetail { start: Some(start), end }],
+                    }
+                })
+                .collect();
+            let goal = vh::core::build_goal("cost", transport.clone()).unwrap();
+            let problem = Arc::new(
+                ProblemBuilder::default()
+                    .add_jobs(jobs.into_iter())
+                    .add_vehicles(vehicles.into_iter())
+                    .with_goal(goal)
+                    .with_transport_cost(transport.clone())
+                    .with_logger(Arc::new(|_: &str| {}))
+                    .build()
+                    .unwrap(),
+            );
+            let env = Arc::new(Environment::default());
+            let mut ctx = InsertionContext::new_empty(problem.clone(), env.clone());
+            for (i, rj) in route_jobs.iter().enumerate() {
+                let actor = problem
+                    .fleet
+                    .actors
+                    .iter()
+                    .find(|a| a.vehicle.dimens.get_vehicle_id().map(|id| id == &format!("v{i}")).unwrap_or(false))
+                    .cloned()
+                    .expect("actor");
+                let mut route_ctx = ctx.solution.registry.get_route(&actor).expect("actor available");
+                for (loc, single) in rj {
+                    route_ctx.route_mut().tour.insert_last(Activity {
+                        place: ActPlace { idx: 0, location: *loc, duration: 0., time: TimeWindow::max() },
+                        schedule: Schedule::new(0., 0.),
+                        job: Some(single.clone()),
+                        commute: None,
+                    });
+                }
+                ctx.problem.goal.accept_route_state(&mut route_ctx);
+                ctx.solution.registry.use_route(&route_ctx);
+                ctx.solution.routes.push(route_ctx);
+            }
+            let rctx = RefinementContext::new(
+                problem.clone(),
+                Box::new(create_elitism_population(problem.goal.clone(), env.clone())),
+                TelemetryMode::None,
+                env.clone(),
+            );
+            let mode = if case["mode"].as_str() == Some("improvement") { LKHSearchMode::ImprovementOnly } else { LKHSearchMode::Diverse };
+            let op = LKHSearch::new(mode);
+            calls.store(0, Ordering::SeqCst);
+            armed.store(1, Ordering::SeqCst);
+            let res = catch_unwind(AssertUnwindSafe(|| with_pool(1, || op.search(&rctx, &ctx))));
+            armed.store(0, Ordering::SeqCst);
+            match res {
+                Ok(new_ctx) => {
+                    let out: Vec<Value> = new_ctx
+                        .solution
+                        .routes
+                        .iter()
+                        .map(|rc| {
+                            let vid = rc.route().actor.vehicle.dimens.get_vehicle_id().cloned().unwrap_or_default();
+                            let ids: Vec<usize> = rc
+                                .route()
+                                .tour
+                                .all_activities()
+                                .filter_map(|a| a.job.as_ref().and_then(|j| j.dimens.get_job_id().cloned()))
+                                .map(|id| id.parse().expect("numeric job id"))
+                                .collect();
+                            let locs: Vec<usize> = rc.route().tour.all_activities().map(|a| a.place.location).collect();
+                            json!({ "vehicle": vid, "jobs": ids, "locs": locs })
+                        })
+                        .collect();
+                    json!({ "routes": out, "unassigned": new_ctx.solution.unassigned.len(), "required": new_ctx.solution.required.len(),
+                            "calls": calls.load(Ordering::SeqCst) })
+                }
+                Err(e) => {
+                    if panic_text(&e).contains(BUDGET_MSG) {
+                        json!({ "budget_exceeded": true, "calls": calls.load(Ordering::SeqCst) })
+                    } else {
+                        panic!("{}", panic_text(&e))
+                    }
                 }
             }
         }
